@@ -851,7 +851,8 @@ def rand_c11(seed, tier, cases=None):
     out = [dict(fam="C11", kind="payload", valid=True, mtu=1200, pidon=True, startid=300, frames=[dict(len=70000, salt=3, fillv=-1)], **{"class": "giant_frame"})]
     for _ in range(1500 if tier == "quick" else 20000):
         mtu = rng.choice([5, 6, 7, 9, 13, 50, 200, 1200, rng.randint(5, 1500)])
-        frames = [dict(len=rng.choice([1, 2, mtu - 4, mtu - 3, mtu - 1, mtu, mtu + 1, 2 * mtu, rng.randint(1, 3 * mtu), rng.randint(1, 15 * mtu) if mtu < 150 else 300]), salt=rng.randint(0, 200), fillv=rng.choice([-1, -1, -1, 255, 0, rng.randint(0, 255)])) for _ in range(rng.randint(1, 9))]
+        frames = [dict(len=rng.choice([1, 2, mtu - 4, mtu - 3, mtu - 1, mtu, mtu + 1, 2 * mtu, rng.randint(1, 3 * mtu), rng.randint(1, 15 * mtu) if mtu < 150 else 300,
+                                       rng.choice([1, 2, 3, 4]) * mtu - rng.randint(0, 14)]), salt=rng.randint(0, 200), fillv=rng.choice([-1, -1, -1, 255, 0, rng.randint(0, 255)])) for _ in range(rng.randint(1, 9))]
         for f in frames:
             f["len"] = max(1, f["len"])
             if rng.random() < 0.12:
@@ -1011,7 +1012,8 @@ def rand_c12(seed, tier, cases=None):
             hdr = dict(profile=pr, existing=False, idx=0, nonkey=rng.random() < 0.5, show=rng.random() < 0.5, errres=rng.random() < 0.5, deep=rng.random() < 0.5,
                        cs=rng.randint(0, 7), range=rng.random() < 0.5, ssx=rng.random() < 0.5, ssy=rng.random() < 0.5,
                        w=rng.choice([1, 2, 640, 1920, 65535, rng.randint(1, 65535)]), h=rng.choice([1, 480, 1080, 65535, rng.randint(1, 65535)]))
-            frames.append(dict(hdr=hdr, body=rng.choice([0, 1, mtu - 12, mtu - 3, mtu, 2 * mtu, rng.randint(0, 3 * mtu), rng.randint(0, 14 * mtu) if mtu < 150 else 40]), salt=rng.randint(0, 200), fillv=rng.choice([-1, -1, 255, 0, rng.randint(0, 255)])))
+            frames.append(dict(hdr=hdr, body=rng.choice([0, 1, mtu - 12, mtu - 3, mtu, 2 * mtu, rng.randint(0, 3 * mtu), rng.randint(0, 14 * mtu) if mtu < 150 else 40,
+                                                    rng.choice([1, 2, 3, 4]) * mtu - rng.randint(0, 30)]), salt=rng.randint(0, 200), fillv=rng.choice([-1, -1, 255, 0, rng.randint(0, 255)])))
         for f in frames:
             f["body"] = max(0, f["body"])
         out.append(dict(fam="C12", kind="payload", valid=True, mtu=mtu, flexible=rng.random() < 0.5, startid=rng.choice([0, 32767, 32766, rng.randint(0, 32767)]),
@@ -1118,7 +1120,8 @@ def rand_c13(seed, tier, cases=None):
         obus = []
         for i in range(n):
             ext = rng.random() < 0.5
-            ln = rng.choice([0, 1, 2, mtu - 2, mtu - 1, mtu, 2 * (mtu - 1) - 1, 2 * (mtu - 1), 126, 127, 128, rng.randint(0, 3 * mtu)])
+            ln = rng.choice([0, 1, 2, mtu - 2, mtu - 1, mtu, 2 * (mtu - 1) - 1, 2 * (mtu - 1), 126, 127, 128, rng.randint(0, 3 * mtu),
+                             rng.choice([1, 2, 3]) * (mtu - 1) - rng.randint(0, 6)])   # last fragment of every size near a full packet
             ln = max(0, min(ln, 1500))
             obus.append(dict(type=rng.choice([1, 2, 3, 4, 5, 6, 7, 8, 15, rng.randint(0, 15)]), ext=ext, tid=rng.randint(0, 2) if ext else 0, sid=rng.randint(0, 1) if ext else 0,
                              r3=rng.choice([0, 0, 5]) if ext else 0, r1=rng.choice([0, 0, 1]), hassize=True, payload=rbytes(rng, ln)))
@@ -1131,7 +1134,7 @@ def rand_c13(seed, tier, cases=None):
 prop(dict(
     id="C13", fam="C13",
     mc=[("AV1MC.tla", "AV1MC.cfg", {"thorough": {"Sizes": "{0, 1, 2, 4, 5, 6, 7, 8, 13, 20}"}})],
-    gen=[("AV1Gen.tla", "AV1Gen.cfg", {"thorough": {"Stride": "5", "HdrStride": "1"}})],
+    gen=[("AV1Gen.tla", "AV1Gen.cfg", {"thorough": {"Stride": "7", "HdrStride": "1"}})],
     rand=rand_c13,
     trace=("AV1Trace.tla", "AV1Trace.cfg"),
     shards={"quick": 8, "thorough": 14},
